@@ -1,6 +1,7 @@
 // Command c02 is the harness binary for property C02.
 //
 //	ottoh-C02 --facts <out.lean>     regenerate the panic-discipline facts from /repo (go/types)
+//	ottoh-C02 --deep-child <kind> <n> <limit>   run one `deep` request and print its token (deep.go)
 package main
 
 import (
@@ -11,6 +12,19 @@ import (
 )
 
 func main() {
+	if len(os.Args) >= 2 && os.Args[1] == "--deep-child" { // one `deep` request, in a process of its own (deep.go)
+		deepChild(os.Args[2:])
+		return
+	}
+	if len(os.Args) >= 3 && os.Args[1] == "--deep-list" { // the deep requests of a tier as a --replay file (development aid)
+		c := &h.Ctx{Tier: os.Args[2], Dist: map[string]int{}}
+		h.InitCtx(c)
+		genDeep(c)
+		for _, l := range c.Lines {
+			fmt.Println("request: " + l)
+		}
+		return
+	}
 	if len(os.Args) >= 3 && os.Args[1] == "--facts" {
 		if err := writeFacts(repoRoot(), os.Args[2]); err != nil {
 			fmt.Fprintln(os.Stderr, err)
